@@ -46,7 +46,7 @@ class SMMapSetMeta:
             if line == "":
                 continue
 
-            s = [token.strip() for token in line.split(":")]
+            s = [token.strip() for token in line.split(":", 1)]
             # This is to get rid of comments
             # e.g.
             # // HELLO\n#TITLE:WORLD -> #TITLE:WORLD
